@@ -25,6 +25,11 @@ type Pkg struct {
 
 var pkgCache = map[string]*Pkg{}
 
+// one FileSet and one source importer shared by all packages: the importer caches every
+// dependency it type-checks, so the standard library is checked once per run
+var sharedFset = token.NewFileSet()
+var sharedImporter types.Importer
+
 // loadPkg parses all non-test .go files (without build-tagged verif files) in repo/dir and
 // type-checks them leniently (imports resolved from source when possible, errors ignored),
 // which is enough to evaluate constant expressions.
@@ -33,7 +38,7 @@ func loadPkg(dir string) (*Pkg, error) {
 		return p, nil
 	}
 	full := filepath.Join(repo, dir)
-	fset := token.NewFileSet()
+	fset := sharedFset
 	ents, err := os.ReadDir(full)
 	if err != nil {
 		return nil, err
@@ -78,7 +83,10 @@ func loadPkg(dir string) (*Pkg, error) {
 		}
 	}
 	info := &types.Info{Types: map[ast.Expr]types.TypeAndValue{}, Defs: map[*ast.Ident]types.Object{}, Uses: map[*ast.Ident]types.Object{}, Selections: map[*ast.SelectorExpr]*types.Selection{}}
-	conf := types.Config{Importer: importer.ForCompiler(fset, "source", nil), Error: func(error) {}, FakeImportC: true}
+	if sharedImporter == nil {
+		sharedImporter = importer.ForCompiler(sharedFset, "source", nil)
+	}
+	conf := types.Config{Importer: sharedImporter, Error: func(error) {}, FakeImportC: true}
 	tp, _ := conf.Check(dir, fset, keep, info)
 	p := &Pkg{Dir: dir, Fset: fset, Files: keep, Info: info, Types: tp}
 	pkgCache[dir] = p
